@@ -54,12 +54,8 @@ func (t *tracer) middleware(mw *mwSpec) frugal.ServiceMiddleware {
 	return func(next frugal.InvocationHandler) frugal.InvocationHandler {
 		return func(svc reflect.Value, m reflect.Method, args frugal.Arguments) frugal.Results {
 			method := lowerFirst(m.Name)
-			t.add(event{mw.ID, "enter", method, renderList(args)})
-			pass := args
-			if mw.RW == rwArg && len(args) > 0 {
-				pass = append(frugal.Arguments{args[0]}, rwArgs(mw, method, []interface{}(args[1:]))...)
-			}
-			res := next(svc, m, pass)
+			t.add(event{mw.ID, "enter", method, withCtx(renderList(args), ctxDesc(args.Context()))})
+			res := next(svc, m, passOn(mw, method, args))
 			t.add(event{mw.ID, "exit", method, renderList(res)})
 			return frugal.Results(rwRes(mw, method, []interface{}(res)))
 		}
@@ -92,10 +88,11 @@ func chain(lists ...[]*mwSpec) []*mwSpec {
 
 // foldIn appends the enter events of ch (outer to inner) and returns the
 // arguments the innermost passes on.
-func foldIn(tr *[]event, ch []*mwSpec, method string, args []interface{}) []interface{} {
+func foldIn(tr *[]event, ch []*mwSpec, method string, cm *ctxModel, args []interface{}) []interface{} {
 	for _, mw := range ch {
-		*tr = append(*tr, event{mw.ID, "enter", method, renderList(args)})
+		*tr = append(*tr, event{mw.ID, "enter", method, withCtx(renderList(args), cm.String())})
 		args = rwArgs(mw, method, args)
+		cm.apply(mw)
 	}
 	return args
 }
